@@ -161,6 +161,47 @@ def container_evident(fn, param, value_expr):
     return False
 
 
+def _returns_list(d):
+    """Does the function ``d`` always return a list it has made (a display,
+    a comprehension, list(...), sorted(...), or a local only ever bound to
+    one of those)?  ``x += f()`` is then an in-place extension of x."""
+    if not isinstance(d, ast.FunctionDef):
+        return False
+
+    def listy(e):
+        return isinstance(e, (ast.List, ast.ListComp)) or (
+            isinstance(e, ast.Call) and call_name(e)[0] in ("list",
+                                                            "sorted"))
+    rets = [r for r in _walk_no_scopes(d) if isinstance(r, ast.Return)]
+    if not rets or any(isinstance(x, (ast.Yield, ast.YieldFrom))
+                       for x in _walk_no_scopes(d)):
+        return False
+    for r in rets:
+        v = r.value
+        if v is None:
+            return False
+        if listy(v):
+            continue
+        if isinstance(v, ast.Name):
+            binds = [a for a in _walk_no_scopes(d)
+                     if isinstance(a, ast.Assign) and any(
+                         isinstance(t, ast.Name) and t.id == v.id
+                         for t in a.targets)]
+            others = [a for a in _walk_no_scopes(d) if isinstance(
+                a, (ast.AugAssign, ast.For, ast.With)) and any(
+                    isinstance(t, ast.Name) and t.id == v.id and
+                    isinstance(t.ctx, ast.Store) for t in ast.walk(
+                        a.target if not isinstance(a, ast.With) else a))]
+            params = [x.arg for x in d.args.posonlyargs + d.args.args +
+                      d.args.kwonlyargs]
+            if binds and all(listy(a.value) for a in binds) and \
+                    v.id not in params and all(
+                        isinstance(a, ast.AugAssign) for a in others):
+                continue
+        return False
+    return True
+
+
 class Effects(object):
     def __init__(self, program, max_depth=2):
         self.program = program
@@ -624,7 +665,11 @@ class _FnAnalysis(object):
                     if isinstance(s.value, (ast.List, ast.ListComp, ast.Set,
                                             ast.SetComp)) or (
                             isinstance(s.value, ast.Call) and
-                            call_name(s.value)[0] in ("list", "set")):
+                            call_name(s.value)[0] in ("list", "set")) or (
+                            isinstance(s.value, ast.Call) and
+                            isinstance(s.op, ast.Add) and
+                            _returns_list(self.eff.resolve(s.value,
+                                                           self.fn))):
                         self._mutate(t, env, s, "%s %s= ..." % (
                             t.id, type(s.op).__name__))
                     else:
